@@ -333,3 +333,107 @@ Proof.
   intros. unfold E8_batch. pose proof (zlen_nonneg held).
   apply sliced_safe; try lia. intros; cbn; auto.
 Qed.
+
+(* ---------- E7 ---------- *)
+Lemma idx_safe : forall A (l : list A) i site k, (i < List.length l)%nat -> (forall x, safe (k x)) ->
+  safe (idx l i site k).
+Proof.
+  intros A l i site k H Hk. unfold idx. destruct (nth_error l i) eqn:E; [apply Hk|].
+  apply nth_error_None in E. lia.
+Qed.
+
+Lemma E7_disclosure_safe : forall d, safe (E7_disclosure d).
+Proof.
+  intros [arr|]; [|exact I]. unfold E7_disclosure.
+  apply safe_andthen; [apply safe_check|]. intros H. apply check_pass in H. apply Nat.ltb_ge in H.
+  apply idx_safe; [lia|]. intros salt.
+  apply safe_andthen'.
+  - destruct (is_jstr salt); [exact I|]. apply idx_safe; [lia|]. intros; exact I.
+  - destruct (List.length arr) as [|[|[|[|n]]]] eqn:L; try exact I; try lia.
+    + apply idx_safe; [lia|]. intros; exact I.
+    + apply idx_safe; [lia|]. intros name. apply safe_andthen'.
+      * destruct (is_jstr name); exact I.
+      * apply idx_safe; [lia|]. intros; exact I.
+Qed.
+
+Lemma E7_cnf_safe : forall c, safe (E7_cnf c).
+Proof.
+  intros c. unfold E7_cnf.
+  destruct (match lookup c "cnf" with Some x => Some x | None => _ end) as [[]|]; exact I.
+Qed.
+
+(* ---------- E9 ---------- *)
+Lemma E9_invitation_key_safe : forall d keys, safe (E9_invitation_key Fixed d keys).
+Proof.
+  intros [] keys; cbn; auto. destruct keys; cbn; auto.
+Qed.
+
+Lemma E9_thread_safe : forall t f, safe (E9_thread t f).
+Proof.
+  intros [t|] f; unfold E9_thread.
+  - apply safe_andthen'; [apply safe_check|]. apply safe_andthen'; [apply safe_lib|exact I].
+  - cbn. exact I.
+Qed.
+
+Lemma E9_attachment_safe : forall d p a, safe (E9_attachment d p a).
+Proof.
+  intros d p a. unfold E9_attachment. apply safe_andthen'; [apply safe_lib|].
+  destruct p; [exact I|]. destruct a as [b|]; cbn; [apply safe_lib|exact I].
+Qed.
+
+Lemma b58_ascii_safe : forall site, safe (b58_decode true site).
+Proof. intros; exact I. Qed.
+
+Lemma E9_legacy_response_safe : forall keys sig ok, safe (E9_legacy_response Fixed keys sig ok).
+Proof.
+  intros keys sig ok. unfold E9_legacy_response.
+  destruct keys as [|[dk ascii] r]; [exact I|]. cbn [guard andthen idx nth_error].
+  destruct sig as [s|]; cbn [is_none guard andthen deref]; [|exact I].
+  apply safe_andthen'; [apply safe_lib|]. apply safe_andthen'; [apply safe_check|].
+  apply safe_andthen'; [apply safe_lib|].
+  apply safe_andthen'.
+  - destruct dk; [exact I|]. destruct ascii; cbn; exact I.
+  - apply safe_andthen'; [apply safe_lib|].
+    apply safe_andthen; [apply safe_check|]. intros H. apply check_pass in H. apply Z.leb_gt in H.
+    apply sliced_safe; try lia.
+    + unfold zlen. rewrite repeat_length. rewrite Z2Nat.id; lia.
+    + intros; exact I.
+Qed.
+
+Lemma E9_convert_keys_safe : forall keys, safe (E9_convert_keys Fixed keys).
+Proof.
+  induction keys as [|[[[e r] d] a] t IH]; [exact I|]. cbn [E9_convert_keys].
+  apply safe_andthen'; [|exact IH].
+  destruct (e || r || d); [exact I|]. destruct a; exact I.
+Qed.
+
+Lemma E9_pack_keys_safe : forall keys, safe (E9_pack_keys Fixed keys).
+Proof.
+  induction keys as [|a t IH]; [exact I|]. cbn [E9_pack_keys].
+  destruct a; cbn [negb guard andthen b58_decode]; [exact IH|exact I].
+Qed.
+
+Lemma E9_meta_recipients_safe : forall l, safe (E9_meta_recipients Fixed l).
+Proof.
+  induction l as [|t r IH]; [exact I|]. cbn [E9_meta_recipients].
+  apply safe_andthen'; [destruct t; exact I|exact IH].
+Qed.
+
+Lemma string_array_total : forall j, is_ok (string_array j) || is_err (string_array j) = true.
+Proof.
+  destruct j as [| | | |l|]; try reflexivity. cbn [string_array].
+  induction l as [|x r IH]; [reflexivity|].
+  destruct x; try reflexivity.
+  destruct ((fix go (l : list json) : res (list string) :=
+               match l with
+               | [] => Ok []
+               | JStr s :: r => match go r with Ok t => Ok (s :: t) | e => e end
+               | _ :: _ => Err EInvalid
+               end) r); cbn in *; auto.
+Qed.
+
+Lemma E7_digests_total : forall c, is_ok (E7_digests c) || is_err (E7_digests c) = true.
+Proof.
+  intros c. unfold E7_digests. destruct (lookup c "_sd") as [sd|]; [|reflexivity].
+  pose proof (string_array_total sd) as H. destruct (string_array sd); cbn in *; auto.
+Qed.
